@@ -2,7 +2,7 @@
    names, values), Axml/PoolProofs.v (string pool), Axml/AxmlChunks.v (one chunk), Axml/AxmlDocument.v (sequences of
    chunks, the loop, whole documents). *)
 From Coq Require Import ZArith List Bool.
-Require Import V.Lib.Val V.Lib.Result V.Axml.PoolModel V.Axml.AxmlModel V.Axml.AxmlProofs V.Axml.PoolProofs V.Axml.AxmlChunks V.Axml.AxmlDocument.
+Require Import V.Lib.Val V.Lib.Result V.Axml.PoolModel V.Axml.AxmlModel V.Axml.AxmlProofs V.Axml.PoolProofs V.Axml.AxmlChunks V.Axml.AxmlDocument V.Axml.AxmlAttrs.
 Import ListNotations.
 Open Scope Z_scope.
 Import ListNotations.
@@ -145,3 +145,22 @@ Example C26_plain_nonvacuous :
   tree_of ex_ss ex_ptree = El [97] [] [] [102; 111; 111] [El [98] [] [] [] [] [98; 97; 114]] [] /\
   parse_axml [] (doc_bytes true ex_ss [0; 0] (items_of ex_ptree)) = Ok (Some (tree_of ex_ss ex_ptree)).
 Proof. exact plain_example. Qed.
+
+(* end to end with attributes and namespaces: every element tree whose element and attribute names are XML names as they
+   stand - any shape and depth, any texts, any number of attributes per element, each in any namespace (or none) and of any
+   value type (string through the pool, integer, hex, boolean, reference, dimension ...: the formatted value of C27, cleaned),
+   repeated attribute keys overwriting, any namespace declarations around the root - written as header, string pool
+   (either encoding) and chunks, without a resource map, is parsed to exactly that tree *)
+Theorem C26_documents_with_attributes_round_trip : forall (utf8_flag : bool) ss padding sysattr decls t,
+  Forall (fits utf8_flag) ss -> Z.of_nat (length ss) < NONE -> Forall wf_decl decls ->
+  wf_atree ss t -> atail t = NONE ->
+  28 + 4 * Z.of_nat (length ss) + len (concat (map (if utf8_flag then entry8 else entry16) ss)) < 4294967296 ->
+  len (doc_bytes utf8_flag ss padding (adoc_items decls t)) < 4294967296 ->
+  parse_axml sysattr (doc_bytes utf8_flag ss padding (adoc_items decls t)) = Ok (Some (atree_of ss decls t)).
+Proof. exact attribute_document_round_trip. Qed.
+Print Assumptions C26_documents_with_attributes_round_trip.
+(* <manifest xmlns:android="http://a/res" package="com.x" android:versionCode="7"><application android:name="com.x"/></manifest> *)
+Example C26_attributes_nonvacuous :
+  wf_atree ax_ss ax_tree /\ atree_of ax_ss [(0, 1)] ax_tree = ax_xml /\
+  parse_axml [] (doc_bytes false ax_ss [] (adoc_items [(0, 1)] ax_tree)) = Ok (Some ax_xml).
+Proof. exact attribute_example. Qed.
